@@ -7,18 +7,23 @@ import (
 	"io/ioutil"
 	"math/rand"
 	"os"
+	"os/exec"
 	"path/filepath"
 	"reflect"
 	"runtime"
 	"sort"
 	"strings"
 	"sync"
+	"time"
 
 	protocol "github.com/hujm2023/go-sms-protocol"
 	sms "github.com/hujm2023/go-sms-protocol"
 	"github.com/hujm2023/go-sms-protocol/cmpp"
 	"github.com/hujm2023/go-sms-protocol/datacoding"
 	gsm7 "github.com/hujm2023/go-sms-protocol/datacoding/gsm7encoding"
+	"github.com/hujm2023/go-sms-protocol/smgp/smgp30"
+	"github.com/hujm2023/go-sms-protocol/smpp"
+	"github.com/hujm2023/go-sms-protocol/smpp/smpp34"
 )
 
 // Family "conc" (C13): the same operations alone and on many goroutines, in a
@@ -41,7 +46,14 @@ func genConc(g *genCtx) {
 		if !g.mine(i) {
 			continue
 		}
-		g.emit(Case{"seed": seed, "g": ng, "ops": 1 + r.Intn(maxOps), "procs": []int{1, 2, 4, 8, 16}[r.Intn(5)]})
+		c := Case{"seed": seed, "g": ng, "ops": 1 + r.Intn(maxOps), "procs": []int{1, 2, 4, 8, 16}[r.Intn(5)]}
+		if i%3 == 0 {
+			// the program is the first thing a fresh process does, and its goroutines run before anything has been
+			// called alone: whatever the library initialises on first use is initialised concurrently
+			c["fresh"] = 1
+			c["procs"] = []int{4, 8, 16}[r.Intn(3)]
+		}
+		g.emit(c)
 	}
 }
 
@@ -99,7 +111,11 @@ func concOp(kind int, seed int64) string {
 				pdc = append(pdc, toPDC(proto, v))
 			}
 		}
-		parts, a, err := protocol.NewBatchDataCodingEncoder().Protocol(protocol.Protocol(proto)).Content(txt, byte(rr.Intn(256))).DataCodings(pdc).Build(context.Background())
+		b := protocol.NewBatchDataCodingEncoder().Protocol(protocol.Protocol(proto)).Content(txt, byte(rr.Intn(256))).DataCodings(pdc)
+		if rr.Intn(2) == 0 { // the coding the message arrived in, usually not among the candidates
+			b.OriginDataCoding(toPDC(proto, batchValid[proto][rr.Intn(len(batchValid[proto]))]))
+		}
+		parts, a, err := b.Build(context.Background())
 		return fmt.Sprint(parts, a, err != nil)
 	case 5:
 		return cmpp.Utf8ToUcs2Pooled(randText(rr, rr.Intn(300)))
@@ -130,6 +146,22 @@ func concOp(kind int, seed int64) string {
 		runtime.Gosched()
 		b, err := resp.IEncode()
 		return fmt.Sprint(b, err != nil)
+	case 11: // login authenticators and timestamps
+		acc, sec := string(nulFree(rr, rr.Intn(7))), string(nulFree(rr, rr.Intn(20)))
+		ts := uint32(rr.Intn(1231235960))
+		a1, _ := smgp30.VerifGenAuthenticatorClient(acc, sec, ts)
+		a2 := cmpp.GenConnectAuth(acc, sec, cmpp.TimeStamp2Str(ts))
+		a3 := cmpp.GenConnectRespAuthISMG([]byte{byte(rr.Intn(256))}, string(a2), sec)
+		return fmt.Sprint(a1, a2, a3)
+	case 12: // message ids, receipts, validity periods
+		id := rr.Uint64()
+		a, b, c, d, e, g, h := cmpp.SplitMsgID(id)
+		str := cmpp.MsgID2String(id)
+		txt := fmt.Sprintf("id:%010d sub:001 dlvrd:001 submit date:2401011200 done date:2401011201 stat:DELIVRD err:%03d text:%s", rr.Intn(1e9), rr.Intn(1000), randText(rr, rr.Intn(12)))
+		r1, _ := smpp34.ExtractDeliveryReceipt(txt)
+		r2, _ := smgp30.ExtractDeliveryReceipt(txt)
+		v, err := smpp.ToValidatePeriod(time.Unix(int64(rr.Intn(2000000000)), 0).UTC(), fmt.Sprintf("%ds", rr.Intn(3000000)), rr.Intn(2) == 0)
+		return fmt.Sprint(a, b, c, d, e, g, h, str, cmpp.MsgIDString2Uint64(str), cmpp.CombineMsgID(a, b, c, d, e, g, h), r1, r2, v, err != nil)
 	case 9: // an encode that must fail (a value too long for its slot), like a caller's mistake in production
 		tn := []string{"smgp30.Submit", "cmpp20.PduSubmit", "cmpp30.Deliver", "sgip12.Bind", "smgp30.Login"}[rr.Intn(5)]
 		a := defaultAssign(rr, tn, true)
@@ -173,6 +205,11 @@ func concOp(kind int, seed int64) string {
 }
 
 func runConc(c Case, tr *Tracer) {
+	fresh := caseInt(c, "fresh") == 1
+	if fresh && os.Getenv("VERIF_CONC_CHILD") == "" {
+		runConcChild(c, tr)
+		return
+	}
 	seedv := int64(caseInt(c, "seed"))
 	if v, ok := c["seed"].(int64); ok {
 		seedv = v
@@ -192,26 +229,41 @@ func runConc(c Case, tr *Tracer) {
 	ids := make([][]int, ng)
 	for g := 0; g < ng; g++ {
 		for i := 0; i < nops; i++ {
-			o := opd{rr.Intn(11), rr.Int63()}
+			o := opd{rr.Intn(13), rr.Int63()}
 			if i == 0 && g%2 == 0 {
 				o.kind = 9 // every second goroutine starts with a failing encode
 			}
 			if i == 1 && g == 1 {
 				o.kind = 4
 			}
+			if fresh && i == 0 && g%2 == 1 {
+				o.kind = []int{6, 2, 11, 12}[(g/2)%4] // first use of the lookup tables, concurrently
+			}
 			prog[g] = append(prog[g], o)
 			opID++
 			ids[g] = append(ids[g], opID)
-			tr.emit(Ev{"ev": "Seq", "op": opID, "kind": o.kind, "res": digest(concOp(o.kind, o.seed)), "site": fmt.Sprintf("op%d", o.kind)})
 		}
+	}
+	seqres := make([][]string, ng)
+	alone := func() {
+		for g := 0; g < ng; g++ {
+			for _, o := range prog[g] {
+				seqres[g] = append(seqres[g], digest(concOp(o.kind, o.seed)))
+			}
+		}
+	}
+	if !fresh {
+		alone()
 	}
 	old := runtime.GOMAXPROCS(caseInt(c, "procs"))
 	results := make([][]string, ng)
 	var wg sync.WaitGroup
+	start := make(chan struct{})
 	for g := 0; g < ng; g++ {
 		wg.Add(1)
 		go func(g int) {
 			defer wg.Done()
+			<-start
 			yr := rand.New(rand.NewSource(seedv + int64(g)))
 			for _, o := range prog[g] {
 				if yr.Intn(2) == 0 {
@@ -221,14 +273,92 @@ func runConc(c Case, tr *Tracer) {
 			}
 		}(g)
 	}
+	close(start)
 	wg.Wait()
 	runtime.GOMAXPROCS(old)
+	if fresh {
+		alone() // the reference comes afterwards: nothing was called alone before the goroutines ran
+	}
+	for g := 0; g < ng; g++ {
+		for i, o := range prog[g] {
+			tr.emit(Ev{"ev": "Seq", "op": ids[g][i], "kind": o.kind, "res": seqres[g][i], "site": fmt.Sprintf("op%d", o.kind)})
+		}
+	}
 	for g := 0; g < ng; g++ {
 		for i, res := range results[g] {
 			tr.emit(Ev{"ev": "Par", "g": g, "i": i + 1, "op": ids[g][i], "res": res, "site": fmt.Sprintf("op%d", prog[g][i].kind)})
 		}
 	}
-	tr.emit(Ev{"ev": "End", "races": countRaceReports() - racesBefore, "site": "race-detector"})
+	tr.emit(Ev{"ev": "End", "races": countRaceReports() - racesBefore, "crash": false, "site": "race-detector"})
+}
+
+// runConcChild executes a "fresh" program in a process of its own (this binary again) and copies its events;
+// a child that dies (fatal error: concurrent map read and map write, ...) is an End event with crash = true
+func runConcChild(c Case, tr *Tracer) {
+	base := fmt.Sprintf("%s.child%d_%d", tr.f.Name(), os.Getpid(), tr.t)
+	defer func() {
+		files, _ := filepath.Glob(base + "*")
+		for _, f := range files {
+			os.Remove(f)
+		}
+	}()
+	cw := newCaseWriter(base + ".cases")
+	cw.write(c)
+	cw.close()
+	cmd := exec.Command(os.Args[0], "conc", "run", "-cases", base+".cases", "-out", base+".trace")
+	env := []string{}
+	for _, kv := range os.Environ() {
+		if !strings.HasPrefix(kv, "GORACE=") {
+			env = append(env, kv)
+		}
+	}
+	cmd.Env = append(env, "VERIF_CONC_CHILD=1", "GORACE=log_path="+base+".race exitcode=0")
+	var stderr strings.Builder
+	cmd.Stderr = &stderr
+	done := make(chan error, 1)
+	if err := cmd.Start(); err != nil {
+		fmt.Fprintln(os.Stderr, "conc child:", err)
+		os.Exit(2)
+	}
+	go func() { done <- cmd.Wait() }()
+	var err error
+	select {
+	case err = <-done:
+	case <-time.After(300 * time.Second):
+		cmd.Process.Kill()
+		fmt.Fprintln(os.Stderr, "conc child: timeout")
+		os.Exit(2)
+	}
+	if err == nil {
+		b, rerr := ioutil.ReadFile(base + ".trace")
+		if rerr == nil {
+			tr.w.Write(b)
+			tr.n += strings.Count(string(b), "\n")
+			return
+		}
+	}
+	msg := stderr.String()
+	races := strings.Count(msg, "WARNING: DATA RACE")
+	files, _ := filepath.Glob(base + ".race.*")
+	for _, f := range files {
+		b, _ := ioutil.ReadFile(f)
+		races += strings.Count(string(b), "WARNING: DATA RACE")
+		msg += string(b)
+	}
+	if !strings.Contains(msg, "fatal error") && !strings.Contains(msg, "panic:") && races == 0 {
+		// not the library's doing (the child could not start, was killed, ...): no verdict
+		fmt.Fprintln(os.Stderr, "conc child failed:", err, msg)
+		os.Exit(2)
+	}
+	first := msg
+	if i := strings.Index(msg, "fatal error"); i >= 0 {
+		first = msg[i:]
+	}
+	if len(first) > 200 {
+		first = first[:200]
+	}
+	tr.emit(Ev{"ev": "Start", "site": "conc"})
+	tr.emit(Ev{"ev": "End", "races": races, "crash": true, "msg": first, "site": "process-died"})
 }
 
 // countRaceReports counts "WARNING: DATA RACE" blocks in the files the race detector writes (GORACE log_path)
